@@ -126,9 +126,12 @@ func (d *DiskKV) Start() {
 		case m := <-d.queue:
 			var mutError error
 			if logError := d.appendLog(m.mut); logError == nil {
+				verifPoint("aof.appended")
 				mutError = d.handleMutation(m.mut)
 				if mutError != nil {
+					verifPoint("aof.rejected")
 					d.rollbackOne(m.mut, mutError)
+					verifPoint("aof.rolledback")
 				}
 			} else {
 				d.logger.Error("Error appending mutation log",
